@@ -13,8 +13,35 @@ without which the distribution is wrong for EVERY stream (rule text and implemen
   C02-R5-generator  every mat_mate / mat_dh call of the seven protocols passes pgmat.vrnt_xoprob and self.rng
   C02-R6-carry      the progeny matrix of every protocol carries the parents' vrnt_xoprob and map coordinates under their own names (later generations)
 """
+import ast
+
 from rules import c01, c11
 from sa.model import AnalysisError
+from sa.astutil import dump, where, walk_no_nested
+
+
+def check_boundary_sets(prog, rep):
+    """C02-R3-toggle (set form): a kernel that turns the crossover index list into segment boundaries must keep one boundary per crossover.  A SET operation
+    (numpy.union1d / unique / set) over the crossover indices together with the sentinel 0 merges a crossover at marker 0 with the sentinel: the phase toggle of
+    that crossover is lost, and marker 0 is where every first chromosome start (probability 1/2) lies - the first copy is then always transmitted."""
+    for modname, name in ((c01.UTIL, "mat_meiosis"), (c01.CORE, "dense_meiosis")):
+        f = prog.func(modname, name)
+        xo = set()
+        for n in walk_no_nested(f.node):
+            if isinstance(n, ast.Assign) and len(n.targets) == 1 and isinstance(n.targets[0], ast.Name) and isinstance(n.value, ast.Call) \
+                    and prog.dotted(f.module, n.value.func) in ("numpy.flatnonzero", "numpy.nonzero", "numpy.where", "numpy.argwhere"):
+                xo.add(n.targets[0].id)
+        for c in walk_no_nested(f.node):
+            if not isinstance(c, ast.Call):
+                continue
+            d = prog.dotted(f.module, c.func) or (c.func.id if isinstance(c.func, ast.Name) else "")
+            if d in ("numpy.union1d", "numpy.unique", "set", "frozenset", "numpy.setxor1d") and any(isinstance(x, ast.Name) and x.id in xo for a in c.args for x in ast.walk(a)):
+                has_zero = any(isinstance(x, ast.Constant) and x.value == 0 and not isinstance(x.value, bool) for a in c.args for x in ast.walk(a))
+                if has_zero or d in ("set", "frozenset", "numpy.unique"):
+                    rep.violate("C02-R3-toggle", f.qualname, "segment boundaries are the SET %s: a crossover at marker 0 coincides with the sentinel 0 and its phase toggle is lost "
+                                "(every gamete starts on the first parental copy although the first chromosome start has crossover probability 1/2)" % dump(c)[:60], where(f, c),
+                                "one boundary and one toggle per crossover index", dump(c)[:60])
+
 
 
 def run(prog, rep, tier):
@@ -29,6 +56,7 @@ def run(prog, rep, tier):
                  ("R6-xoprob", 1), ("R1-formulas", 14), ("C02-R5-generator", 7), ("C02-R6-carry", 7)):
         rep.floor(r, n)
     c01.run_meiosis_rules(prog, rep)
+    check_boundary_sets(prog, rep)
     c11.check_mapfns(prog, rep)
     for mod, cname in c11.GMAPS:
         c11.check_gdist1g(prog, rep, prog.get_class(cname, mod))
